@@ -422,6 +422,46 @@ def shard(shard_i, nshards, payload):
             res.count("tokens_checked", len(ot["tokens"]))
             if len(res.samples) < 1:
                 res.sample({"text": text[:160], "first_tokens": ot["tokens"][:5]})
+        # ---- (c0) one problem per occurrence: variables of standard function block types the analyzer does not support
+        # (P0029), declared in different blocks, POUs and files - every diagnostic is about its own occurrence
+        for i in range(shard_i, max(64, payload["n_units"] // 4), nshards):
+            rng = core.rng_for(payload["seed"], "c05std", i)
+            std = ["TON", "TOF", "TP", "CTU", "CTD", "R_TRIG", "SR"]
+            nfiles = rng.randint(1, 3)
+            files = []
+            occ = []            # (file, byte offset of the type name)
+            for f_ in range(nfiles):
+                name = "s%d.st" % f_
+                text = rng.choice(["", "(* é *)\n", "\n\n"])
+                for p_ in range(rng.randint(1, 3)):
+                    text += "FUNCTION_BLOCK U%d_%d_%d\n" % (i, f_, p_)
+                    for b_ in range(rng.randint(1, 2)):
+                        text += "VAR\n"
+                        for v_ in range(rng.randint(1, 2)):
+                            ty = rng.choice(std[:2] if rng.random() < 0.6 else std)      # the same type again and again
+                            ty = ty if rng.random() < 0.7 else ty.lower()
+                            text += "  t%d_%d : " % (b_, v_)
+                            occ.append((name, len(text.encode("utf-8"))))
+                            text += ty + ";\n"
+                        text += "END_VAR\n"
+                    text += "END_FUNCTION_BLOCK\n"
+                files.append([name, text])
+            obs = probe.run({"op": "analyze", "files": files})
+            res.evaluations += 1
+            res.count("std-type-units")
+            case = {"files": files, "planted": "P0029", "site": "%d occurrences" % len(occ)}
+            if obs.get("watchdog") or "died" in obs or "panic" in obs:
+                res.violation("crash", "crash", obs.get("panic"), case)
+                continue
+            got = sorted((d["primary"]["file"], d["primary"]["start"]) for d in obs.get("diags", []) if d["code"] == "P0029")
+            if not got:
+                res.count("std-type-units-without-P0029")
+                continue
+            if got != sorted(occ):
+                res.violation("wrong-label", "label:per-occurrence:P0029",
+                              {"labels": got[:8], "occurrences": sorted(occ)[:8]}, case)
+            else:
+                res.distinct.add(core.key_of("std", i))
         # ---- (c)(d) diagnostics of planted faults
         for i in range(shard_i, payload["n_units"], nshards):
             rng = core.rng_for(payload["seed"], "c05diag", i)
